@@ -9,6 +9,7 @@ import (
 	"bytes"
 	"context"
 	"fmt"
+	"os"
 	"runtime"
 	"sort"
 	"strconv"
@@ -276,6 +277,13 @@ func (s *Sched) Run() bool {
 				}
 			}
 			if !ok {
+				if os.Getenv("VERIF_DEBUG_SCHED") != "" {
+					st := ""
+					for n, t := range s.threads {
+						st += fmt.Sprintf(" %s=%d", n, t.st)
+					}
+					fmt.Fprintf(os.Stderr, "INFEASIBLE step=%d want=%s enabled=%v states:%s prefix=%v trace-tail=%v\n", step, pick, enabled, st, s.Prefix, tail(s.Trace, 4))
+				}
 				s.Infeasible = true
 				s.mu.Unlock()
 				s.releaseAll()
@@ -562,3 +570,10 @@ func ExploreBounded(workers, maxExec, maxPreempt int, exec func(prefix []string)
 
 // WatcherDone adapts a context to a done channel.
 func WatcherDone(ctx context.Context) <-chan struct{} { return ctx.Done() }
+
+func tail(xs []string, n int) []string {
+	if len(xs) > n {
+		return xs[len(xs)-n:]
+	}
+	return xs
+}
